@@ -61,7 +61,7 @@ type G struct {
 	inLoop int
 	inFunc bool
 	// statistics for non-triviality rules
-	TracerCalls, ShortCircuitTracers, BinaryOps, AnyWraps, EmptyTyped int
+	TracerCalls, ShortCircuitTracers, BinaryOps, AnyWraps, EmptyTyped, ConstConvs int
 	OpPairs                                                           map[string]int
 	tracers                                                           map[string]*m.Func
 	noEmpty                                                           int
@@ -292,7 +292,55 @@ func (g *G) Conv(ty *m.Type, d int) m.Expr {
 		}
 		return &m.MapLit{Ty: ty}
 	}
+	if ty.Composite() && leafIsAny(ty) && g.chance("constconv", 1, 3) {
+		// a constant of a more specific type, which the typed context converts (spec.md#assignability-of-constant-values)
+		g.ConstConvs++
+		leaf := []*m.Type{m.TNum, m.TStr, m.TBool}[g.intn("constleaf", 3)]
+		e := g.constFor(ty, leaf, d)
+		if ty.K == m.Arr {
+			switch g.intn("constexpr", 6) {
+			case 0:
+				return g.bin("+", e, g.constFor(ty, leaf, d), ty)
+			case 1:
+				return g.bin("*", e, m.NumLit(float64(g.intn("constrep", 3))), ty)
+			case 2:
+				return &m.Slice{X: e}
+			case 3:
+				return &m.Group{X: e}
+			}
+		}
+		return e
+	}
 	return g.Natural(ty, d)
+}
+
+func leafIsAny(t *m.Type) bool {
+	for t.Sub != nil {
+		t = t.Sub
+	}
+	return t.K == m.Any
+}
+
+// constFor builds a literal of type ty (whose leaf type is any) all of whose leaves are
+// constants of the one basic type leaf: written down it is a constant of the more specific type.
+func (g *G) constFor(ty, leaf *m.Type, d int) m.Expr {
+	switch ty.K {
+	case m.Any:
+		return m.AsAny(g.Lit(leaf))
+	case m.Arr:
+		a := &m.ArrLit{Ty: ty}
+		for i, n := 0, 1+g.intn("constlen", 3); i < n; i++ {
+			a.Elems = append(a.Elems, g.constFor(ty.Sub, leaf, d-1))
+		}
+		return a
+	}
+	mp := &m.MapLit{Ty: ty}
+	off := g.intn("keyoff", len(keyPool))
+	for i, n := 0, 1+g.intn("constlen", 2); i < n; i++ {
+		mp.Keys = append(mp.Keys, keyPool[(off+i)%len(keyPool)])
+		mp.Vals = append(mp.Vals, g.constFor(ty.Sub, leaf, d-1))
+	}
+	return mp
 }
 
 func (g *G) leaf(ty *m.Type, d int) m.Expr {
